@@ -548,7 +548,21 @@ func (vc *VC) memOf(st *State, s Sort) string {
 			vc.assert(sEq(app("select", m, r), app("select", pm, r)))
 		}
 	}
+	if vc.monotoneSort(s) {
+		vc.assertMonotone(m, vc.memOf(st.base.prev, s))
+	}
 	return m
+}
+
+// monotoneSort: s is the memory of a ghost declared 'monotone' (a counter that effect clauses only increase)
+func (vc *VC) monotoneSort(s Sort) bool {
+	i := strings.Index(string(s), "#")
+	return i >= 0 && vc.eng.cs.Monotone[string(s)[i+1:]]
+}
+
+func (vc *VC) assertMonotone(m, pm string) {
+	vc.assert(fmt.Sprintf("(forall ((r Int) (i Int)) (! (>= (select (select %s r) i) (select (select %s r) i)) :pattern ((select (select %s r) i))))", m, pm, m))
+	vc.assumptions["ghost counters declared monotone are only increased by the effect clauses that mention them (an unknown callee or loop body leaves them at least as large)"] = true
 }
 
 func (vc *VC) loadComp(st *State, s Sort, ref, slot string) string {
